@@ -256,5 +256,41 @@ def run(ctx):
                     ctx.violation(clause, rec)
         ctx.traces += n
         ctx.stage('replay.Calculate', rank=rank, seeds=list(seeds), evaluations=n)
+        # two evaluations on ONE object: the specification's Eval leaves the instance unchanged, so the second
+        # result is the same definition of the same stored arrays whatever was evaluated first
+        m = 0
+        by_inst = {}
+        for e in res.records['EDGE']:
+            by_inst.setdefault(e['from']['seed'], []).append(e['l'])
+        for seed_, labels in sorted(by_inst.items()):
+            inst = insts[seed_]
+            for l1 in labels:
+                for l2 in labels:
+                    if (l1['fn'] in ('pair_correlation', 'pmf')) != (l2['fn'] in ('pair_correlation', 'pmf')):
+                        continue        # the two groups use different stand-ins for totalCorr
+                    spaces = {'H': 'R' if l2['fn'] in ('pair_correlation', 'pmf') else 'F', 'C': 'F', 'W': 'F'}
+                    p, T = make_prism(inst)
+                    populate(p, T, inst, l2['fn'], spaces, MF, MR)
+                    m += 1
+                    ctx.count(('calc2', rank, seed_, l1['fn'], l1['arg'], l2['fn'], l2['arg']))
+                    try:
+                        with warnings.catch_warnings():
+                            warnings.simplefilter('ignore')
+                            call(p, l1['fn'], l1['arg'])
+                            ret = call(p, l2['fn'], l2['arg'])
+                        bad = judge(ctx, inst, l2, spaces, ret, T, MF, MR)
+                    except Exception as ex:
+                        bad = [('NoException', {'observed': '%s: %s' % (type(ex).__name__, ex)})]
+                    for clause, detail in bad:
+                        k = ('seq', l1['fn'], l2['fn'], clause)
+                        if k in failed:
+                            continue
+                        failed.add(k)
+                        rec = {'family': 'replay.Calculate.sequence', 'action': l2['fn'], 'arg': l2['arg'], 'after': [l1['fn'], l1['arg']],
+                               'rank': rank, 'seed': seed_, 'detail': clause, 'instance': inst}
+                        rec.update(detail)
+                        ctx.violation(clause, rec)
+        ctx.traces += m
+        ctx.stage('replay.Calculate.sequences', rank=rank, two_call_sequences=m)
         ctx.sample({'rank': rank, 'edge_label': {k: v for k, v in res.records['EDGE'][2]['l'].items() if k != 'weights'}})
     self_consistency(ctx)
